@@ -4,8 +4,11 @@
    The model follows the REPAIRED tree (/root/work/repo-fixed = pinned tree + notes/candidate-fixes.patch
    + notes/c05-guards.patch): psi.PointerField/TableID/... return neutral values on short input, the offset
    1+pointer_field is computed in int (no uint8 wrap), NewPAT re-checks len >= 13 on the payload taken
-   from a 188-byte packet.  The `_pinned` variants are the functions of the pinned tree, kept for the
-   C05 `_refuted` witnesses (F11).
+   from a 188-byte packet.  The PAT accessors follow /repo commit 3223166 (finding P1 of notes/findings/C07.md):
+   NumPrograms clips section_length to len(pat) - pointer_field, ProgramMap starts at 8 + pointer_field.
+   The `_pinned` variants are the functions of the pinned tree, kept for the C05 `_refuted` witnesses (F11); the
+   `_with` functions (clip to len(pat), fixed counter 8) are the accessors as they were BEFORE 3223166 and are
+   used by the `_pinned` variants only.
    A PAT object (`type pat []byte`) is its byte string; map[int]int is an association list with
    last-write-wins insertion (observations are compared after sorting, DESIGN section 3). *)
 From Gots Require Import Base.Prelude.
@@ -93,20 +96,29 @@ Definition new_pat_pinned (b : bytes) : Res bytes :=
   if len b <? 13 then Err E.InvalidPATLength else
   if len b =? 188 then PatPkt.payload b else Ok b.
 
-(* NumPrograms: sectionLength := int(SectionLength(pat)), clamped to len(pat);
+(* before 3223166 - NumPrograms: sectionLength := int(SectionLength(pat)), clamped to len(pat);
    (sectionLength - 2 - 1 - 1 - 1 - 4) / 4 with Go's int division (truncation towards zero) *)
 Definition num_programs_with (section_length : bytes -> Res N) (pat : bytes) : Res Z :=
   let? sl := section_length pat in
   let sl := Z.of_N sl in
   let sl := if (zlen pat <? sl)%Z then zlen pat else sl in
   Ok (Z.quot (sl - 2 - 1 - 1 - 1 - 4) 4).
-Definition num_programs (pat : bytes) : Res Z := num_programs_with PatPsi.section_length pat.
+(* NumPrograms (3223166): sectionLength := int(SectionLength(pat));
+   if avail := len(pat) - int(PointerField(pat)); avail < sectionLength { sectionLength = avail }
+   (avail can be negative: all int arithmetic); (sectionLength - 2 - 1 - 1 - 1 - 4) / 4, truncating division *)
+Definition num_programs (pat : bytes) : Res Z :=
+  let? sl := PatPsi.section_length pat in
+  let? pf := PatPsi.pointer_field pat in
+  let sl := Z.of_N sl in
+  let avail := (zlen pat - Z.of_N pf)%Z in
+  let sl := if (avail <? sl)%Z then avail else sl in
+  Ok (Z.quot (sl - 2 - 1 - 1 - 1 - 4) 4).
 
 (* m[pn] = pid *)
 Definition map_insert (k v : N) (m : list (N * N)) : list (N * N) :=
   (k, v) :: filter (fun kv => negb (fst kv =? k)) m.
 
-(* ProgramMap: counter := 8; for i := 0; i < NumPrograms(); i++ {
+(* ProgramMap: counter := 8 + int(PointerField(pat))  (before 3223166: counter := 8); for i := 0; i < NumPrograms(); i++ {
      pn := int(pat[counter+1])<<8 | int(pat[counter+2]); pid := int(pat[counter+3])&0x1f<<8 | int(pat[counter+4])
      if pn > 0 { m[pn] = pid }; counter += 4 } *)
 Fixpoint program_map_loop (n : nat) (pat : bytes) (counter : N) (m : list (N * N)) : Res (list (N * N)) :=
@@ -124,7 +136,10 @@ Fixpoint program_map_loop (n : nat) (pat : bytes) (counter : N) (m : list (N * N
 Definition program_map_with (section_length : bytes -> Res N) (pat : bytes) : Res (list (N * N)) :=
   let? n := num_programs_with section_length pat in
   program_map_loop (Z.to_nat n) pat 8 [].
-Definition program_map (pat : bytes) : Res (list (N * N)) := program_map_with PatPsi.section_length pat.
+Definition program_map (pat : bytes) : Res (list (N * N)) :=
+  let? pf := PatPsi.pointer_field pat in
+  let? n := num_programs pat in
+  program_map_loop (Z.to_nat n) pat (8 + pf) [].
 
 (* SPTSpmtPID: NumPrograms() > 1 -> error; the first (only) value of ProgramMap(); none -> error.
    Both errors are errors.New values (executor code E.Other). *)
@@ -136,7 +151,14 @@ Definition spts_pmt_pid_with (section_length : bytes -> Res N) (pat : bytes) : R
   | (_, pid) :: _ => Ok pid
   | [] => Err E.Other
   end.
-Definition spts_pmt_pid (pat : bytes) : Res N := spts_pmt_pid_with PatPsi.section_length pat.
+Definition spts_pmt_pid (pat : bytes) : Res N :=
+  let? n := num_programs pat in
+  if (1 <? n)%Z then Err E.Other else
+  let? m := program_map pat in
+  match m with
+  | (_, pid) :: _ => Ok pid
+  | [] => Err E.Other
+  end.
 
 (* ReadPAT over a scripted reader: the results of the successive io.ReadFull(r, pkt[:]) calls.
    RFull p: 188 bytes were delivered; RFail e: the call failed with error e (fewer than 188 bytes).
